@@ -501,6 +501,18 @@ class SpecEval:
             self.err('typeid("T") expects a type in quotes')
         return V(str(self.vc.tid(ts)), 'Int', 'int')
 
+    def b_builder(self, args):
+        """builder(b): the string accumulated so far in the strings.Builder b (a local variable)"""
+        x = self.eval(args[0])
+        if self.st is None:
+            self.err('builder() in rec body')
+        self.vc.heap_sorts['B.builder'] = 'Arr:Str'
+        return V(self.vc.define('sp$bld', 'Str', '(select %s %s)' % (self.st.get('B.builder', 'Arr:Str'), x.term)), 'Str', 'string')
+
+    def b_fixrune(self, args):
+        x = self.eval(args[0])
+        return V('(fixrune %s)' % x.term, 'Int', 'int32')
+
     def b_isslice(self, args):
         x = self.eval(args[0])
         return V('((_ is a.slice) %s)' % x.term, 'Bool', 'bool')
